@@ -914,6 +914,8 @@ func checkC19(e *Engine, r *Report) {
 		}
 	}
 
+	checkSplitKeysFormat(e, r, pkgExpr)
+
 	// ---- rule 4: weight clamp ------------------------------------------------------------
 	if av := r.Anchor(pkgCA, "Affinity.Validate"); av != nil {
 		fW := e.Field(pkgCA, "Affinity", "Weight")
